@@ -28,7 +28,7 @@ var names = []string{"a", "b", "c", "d", "e", "f", "g", "h"}
 var vvals = []string{"one", "two"}
 var pairvals = []string{"one+two", "two+one", "one+one"}
 var mats = [][][]string{{{"1", "2"}, {"x", "y"}}, {{"p"}, {"q", "r"}}, {{"a", "b"}, {"c"}, {"d", "e"}}, {{"1", "2", "3"}}, {{"a"}, {"b"}, {"c"}, {"1", "2"}}, {{"p", "q"}, {"r"}, {"s"}, {"t"}, {"u", "v"}}}
-var items = [][]string{{"one", "two"}, {"two", "one"}, {"x", "y"}, {"one"}, {"x", "one", "two"}}
+var items = [][]string{{"one", "two"}, {"two", "one"}, {"x", "y"}, {"one"}, {"x", "one", "two"}, {"x", "", "y"}, {"p-q", "r>s", "one"}, {"one", ""}}
 
 func pick[T any](r *rand.Rand, xs []T) T { return xs[r.Intn(len(xs))] }
 
@@ -759,6 +759,30 @@ func Core() []*Program {
 		"a": {Cmds: []Cmd{call("b", ""), sh(0)}},
 		"b": {Ign: true, Src: true, Cmds: []Cmd{sh(3), sh(5), sh(0), sh(7), sh(0)}},
 	}))
+	// loops over lists with an empty item and with items that contain the characters of the separator
+	add(mk("for-empty-and-separator-items", 0, []string{"a", "b"}, map[string]*Task{
+		"a": {Cmds: []Cmd{{K: "sh", For: []string{"x", "", "y"}}, {K: "call", CS: &CallSite{Task: "b", For: []string{"p-q", "r>s", "one"}}},
+			{K: "sh", For: []string{"p-q", "r>s", "one"}}, {K: "call", CS: &CallSite{Task: "b", For: []string{"x", "", "y"}}}, sh(0),
+			{K: "sh", For: []string{"one", ""}}, {K: "call", CS: &CallSite{Task: "b", For: []string{"one", ""}}}, {K: "sh", For: []string{"", "x"}}}},
+		"b": {Cmds: []Cmd{sh(0)}},
+	}))
+	// a deferred task call whose variables mention EXIT_CODE: the called task receives the code of the failing command
+	add(mk("defer-call-exit-code-var", 0, []string{"a", "b"}, map[string]*Task{
+		"a": {Cmds: []Cmd{{K: "dcall", CS: &CallSite{Task: "b", V: "x7", VT: "x{{.EXIT_CODE}}"}}, {K: "dsh"}, sh(0), sh(7), sh(0)}},
+		"b": {Cmds: []Cmd{sh(0)}},
+	}))
+	add(mk("defer-call-exit-code-var-ok", 0, []string{"a", "b"}, map[string]*Task{
+		"a": {Cmds: []Cmd{{K: "dcall", CS: &CallSite{Task: "b", V: "x", VT: "x{{.EXIT_CODE}}"}}, sh(0)}},
+		"b": {Cmds: []Cmd{sh(0)}},
+	}))
+	// a caller that ignores errors does not ignore the guard of a task it calls
+	for _, g := range []string{"requires", "enum", "precond", "prompt"} {
+		add(mk("ign-caller-guard-"+g, 0, []string{"a", "b", "c"}, map[string]*Task{
+			"a": {Cmds: []Cmd{call("b", ""), sh(0)}},
+			"b": {Ign: true, Cmds: []Cmd{sh(3), call("c", "two"), sh(0)}},
+			"c": {Guard: g, Cmds: []Cmd{sh(0)}},
+		}))
+	}
 	// two roots, sequential and parallel
 	for _, par := range []bool{false, true} {
 		p := mk(fmt.Sprintf("two-roots-par%v", par), 2, []string{"a", "b", "c"}, map[string]*Task{
